@@ -89,3 +89,51 @@ Example C14_core_guards_nonvacuous :
   core_guards_b 1000%Z (chunk_of src_core) = true /\
   length (filter (fun o => negb (is_decl (s_role o))) (bind_file (chunk_of src_core))) = 29%nat.
 Proof. vm_compute. repeat split. Qed.
+
+(* ================================================================== composition (agent c12-compose)
+   Proofs/ComposeBind.v, ComposeBindRun.v: C14_complete_locals_partial lifted to whole completion requests over file
+   bytes = the statement C14_complete_locals_full (first conjunct of complete_ok in C14_complete_full, visible locals)
+   for any workspace, restricted by ONE boolean guard on the queried file and to cursors on non-declaring occurrences:
+     complete_guard W files f = file f parses and its chunk satisfies core_guards_b W (in_fragment, laid2_b W, no_repoint).
+   No guard on the text: whatever prefix GetCompleteVar's text cut yields, every visible local that starts with it is
+   offered (IsCompleteNeedShow keeps a name that starts with the prefix).  Missing for C14_complete_full: cursors on
+   declarations, the global labels, the second conjunct ("only those" is C14_labels_only_visible), classes B4 / B5. *)
+From LH Require Import Proofs.ComposeBind Proofs.ComposeBindRun.
+
+(* model level: with the prefix filter *)
+Theorem C14_complete_at_visible_partial : forall P w o col pre n,
+  in_fragment P = true -> Laid2 P -> no_repoint P = true ->
+  In o (bind_file P) -> is_decl (s_role o) = false -> (sc (s_loc o) <= col <= ec (s_loc o))%Z ->
+  In n (env_names (s_env o) []) -> starts_with pre n = true ->
+  In n (complete_at w (analyse P) pre (sl (s_loc o)) col).
+Proof. exact complete_at_visible. Qed.
+Print Assumptions C14_complete_at_visible_partial.
+
+Theorem C14_complete_bytes_partial : forall W files f line col o labels pre off,
+  complete_guard W files f = true -> spec_occ files f line col = Some o -> is_decl (s_role o) = false ->
+  offset_of (bytes_of files f) line col 0 = Some off -> complete_prefix (bytes_of files f) off = CutName pre ->
+  run_complete files f line col = Some labels ->
+  forallb (fun n => negb (starts_with pre n) || name_in n labels) (env_names (s_env o) []) = true.
+Proof. exact complete_request_locals. Qed.
+Print Assumptions C14_complete_bytes_partial.
+
+Example C14_complete_guard_nonvacuous :
+  complete_guard 1000 [(a_lua, src_ok)] a_lua = true /\ complete_guard 1000 [(a_lua, src_core)] a_lua = true /\
+  complete_guard 1000 [(a_lua, src_ok); (b_lua, src_core)] b_lua = true /\
+  length (filter (fun o => negb (is_decl (s_role o))) (bind_file (chunk_of src_core))) = 29%nat /\
+  complete_guard 1000 w_B5_for_step_order a_lua = false.
+Proof. vm_compute. repeat split; reflexivity. Qed.
+
+(* ================================================================== wide fragment (agent wide-fragment)
+   see Properties/C05.v: completion of a bare identifier prefix inside wide programs (prefix cut with the square-bracket
+   aware GetBeforeIndex; nothing is offered for the bare word `_G`); decided by the legs c14.wide / c14.widecorr. *)
+From LH Require Import Model.ResolveWide Spec.LuaScopeWide Proofs.WideNarrow Proofs.WideRun.
+
+Theorem C14_wide_prefix_narrow : forall bs off, text_ok bs = true -> complete_prefix_wide bs off = complete_prefix bs off.
+Proof. exact complete_prefix_wide_narrow. Qed.
+Print Assumptions C14_wide_prefix_narrow.
+
+Theorem C14_wide_complete_narrow : forall w fi pre line col,
+  beq_bytes pre name_G = false -> complete_at_wide w fi pre line col = complete_at w fi pre line col.
+Proof. exact complete_at_wide_narrow. Qed.
+Print Assumptions C14_wide_complete_narrow.
